@@ -157,6 +157,8 @@ def build_harness(race=False, tags="verif"):
     hdir = os.path.join(ROOT, "harness")
     shutil.copyfile(os.path.join(REPO, "go.sum"), os.path.join(hdir, "go.sum"))
     out = HARNESS + ("-race" if race else "")
+    # built under a private name and moved into place only when it differs: a check running at the same time may be executing it
+    final, out = out, out + ".%d.tmp" % os.getpid()
     env = dict(GOENV)
     cmd = ["go", "build", "-tags", tags, "-o", out]
     if os.path.realpath(REPO) != "/repo":
@@ -173,9 +175,18 @@ def build_harness(race=False, tags="verif"):
     cmd.append(".")
     rc, log = run(cmd, cwd=hdir, env=env)
     if rc != 0:
+        try:
+            os.remove(out)
+        except OSError:
+            pass
         raise BuildError("go build of the harness against %s failed:\n%s" % (REPO, log))
-    _built[key] = out
-    return out
+    import filecmp
+    if os.path.exists(final) and filecmp.cmp(out, final, shallow=False):
+        os.remove(out)
+    else:
+        os.replace(out, final)
+    _built[key] = final
+    return final
 
 
 class BuildError(Exception):
@@ -292,7 +303,10 @@ def scan_forbidden():
             if not f.endswith(".v"):
                 continue
             p = os.path.join(dp, f)
-            txt = open(p).read()
+            try:
+                txt = open(p).read()
+            except FileNotFoundError:          # a generated shard of a check running at the same time, already evaluated and removed
+                continue
             if not FORBIDDEN.search(txt):      # fast path: the word does not occur at all
                 continue
             txt = strip_comments(txt)
@@ -317,17 +331,34 @@ def strip_comments(txt):
     return "".join(out)
 
 
+class coq_lock:
+    """Checks may be run at the same time (different properties, or the same property against different trees): builds in coq/
+    are serialised through a lock file so that no run reads a .vo another run is rewriting."""
+    def __enter__(self):
+        import fcntl
+        os.makedirs(BUILD, exist_ok=True)
+        self.f = open(os.path.join(BUILD, ".coq.lock"), "w")
+        fcntl.flock(self.f, fcntl.LOCK_EX)
+        return self
+
+    def __exit__(self, *a):
+        import fcntl
+        fcntl.flock(self.f, fcntl.LOCK_UN)
+        self.f.close()
+
+
 def obligations(chk, props_file, extra_targets=()):
     """Build Props/<id>.v (and what it depends on), read the theorems it states and
     the Print Assumptions block under each. Records obligations/discharged and the
     axioms in the evidence. Returns (ok, broken) where broken names what failed."""
     vo = props_file[:-2] + ".vo"
     # force re-check of the property file itself so that its output is captured
-    try:
-        os.remove(os.path.join(COQ, vo))
-    except OSError:
-        pass
-    ok, log = coq_make([vo] + list(extra_targets))
+    with coq_lock():
+        try:
+            os.remove(os.path.join(COQ, vo))
+        except OSError:
+            pass
+        ok, log = coq_make([vo] + list(extra_targets))
     src = strip_comments(open(os.path.join(COQ, props_file)).read())
     thms = re.findall(r"^\s*(?:Theorem|Lemma)\s+(\w+)", src, re.M)
     chk.cov["obligations"] += len(thms)
